@@ -6,7 +6,8 @@ from rules.c05 import shutdown_summary, is_pop, is_stream_flush, find_thread_ent
 
 EXPL = ("R04.1 every clear/drop of the waiting-waker vector is dominated by the stream flush (through the flush closure, "
         "which must flush on every path), and at thread exit the tracker is dropped only after the shutdown routine's final "
-        "flush; R04.3 the tracker is fed the result of the immediately preceding drain and a ring-derived bound; R04.4 inside the tracker the entries-before-wake "
+        "flush; R04.3 the tracker is fed the result of the immediately preceding drain and a ring-derived bound; R04.6 the status (or the flag condensed from it) that makes the tracker complete the waiting requests is "
+        "true only for the drain outcome built on the ring-empty exit; R04.4 inside the tracker the entries-before-wake "
         "counter is (i) decremented by exactly the entry-count parameter, (ii) set to a constant only where the waiting wakers are released, "
         "(iii) armed with the pure ring bound on every path from the collection of new signals to the exit; R04.5 a flush "
         "request on a dead queue neither unwraps the send result nor the awaited receiver, and the signal type owns the oneshot "
@@ -129,9 +130,14 @@ def run(ctx):
                 if l is None:
                     continue
                 ty = cs.body.local_ty(l)
-                if "DrainResult" in ty or (ty == "usize" and ai == len(cs.args) - 1):
+                if "DrainResult" in ty or (ty == "usize" and ai == len(cs.args) - 1) or ty == "bool":
                     o = pr.operand(a)
                     callbbs = {x[1] for x in o if x[0] == "call"}
+                    # a boolean summary of the drain status: look through the comparison that produced it
+                    for x in list(o):
+                        if x[0] == "call" and (cs.body.term(x[1]).get("callee") or {}).get("name") in ("eq", "ne"):
+                            for a2 in cs.body.term(x[1]).get("args", []):
+                                callbbs |= {y[1] for y in pr.operand(a2) if y[0] in ("call", "callf")}
                     okd = bool(callbbs & drains) and all(dominates(cs.body, d, cs.bb, dom) for d in callbbs & drains)
                     fed += 1
                     ctx.check(okd, "R04.3", fnkey(cs.body) + "#tracker-arg%d-from-drain" % ai, loc(cs.body, cs.bb),
@@ -190,6 +196,83 @@ def run(ctx):
                           "the queue length used as the bound is read before the new flush requests are collected")
     ctx.floor("R04.1", "bindings of the flush action at tracker call sites", nbind, 1)
 
+    # ------------------------------------------------------------------ R04.6 "drained" means: the drain left through the ring-empty exit
+    dr_adts = [a for a in F.adts.values() if a["crate"] == BG and a["def"].endswith("DrainResult")]
+    n46 = 0
+    for da in dr_adts:
+        allv = {v["name"] for v in da["variants"]}
+        # which variants can a drain return while entries may remain? every variant built on a path that is not the pop()==None arm
+        empty_v, other_v = set(), set()
+        for d in F.all_bodies(BG):
+            if not in_bg(F, d) or da["def"] not in (d.d.get("output") or ""):
+                continue
+            pops = [c for c in d.calls() if is_pop(c)]
+            if not pops:
+                continue
+            none_ts = []
+            for p_ in pops:
+                for sw, tg, oth in switch_on_call_result(d, p_):
+                    none_ts.append(tg.get(0, oth))
+            after_none = set().union(*[d.reachable(nt, avoid=[p_.bb for p_ in pops]) for nt in none_ts]) if none_ts else set()
+            before = set(d.live_blocks()) - after_none
+            for i in d.live_blocks():
+                for s_ in d.stmts(i):
+                    if s_["k"] == "assign" and s_["rv"]["k"] == "agg" and s_["rv"].get("adt") == da["def"]:
+                        (empty_v if i in after_none and i not in before else other_v).add(s_["rv"].get("variant"))
+        ring_empty = empty_v - other_v
+        ctx.check(bool(ring_empty), "R04.6", da["def"] + "#ring-empty-outcome", "", "cannot identify the drain outcome that means `the ring was empty` (%s / %s)" % (sorted(empty_v), sorted(other_v)),
+                  "ring-empty outcome: %s; outcomes that can leave entries queued: %s" % (sorted(ring_empty), sorted(allv - ring_empty)))
+
+        def drained_set(b_, op):
+            """variants of the drain status for which the boolean `op` (or a status compared inside) is true; None if not understood"""
+            pr_ = Prov(b_)
+            neg = False
+            for x in pr_.operand(op):
+                if x == ("op", "Not"):
+                    neg = True
+            for x in pr_.operand(op):
+                if x[0] == "call" and (b_.term(x[1]).get("callee") or {}).get("name") in ("eq", "ne"):
+                    t = b_.term(x[1])
+                    vs = set()
+                    for a2 in t.get("args", []):
+                        for y in pr_.operand(a2):
+                            if y[0] == "const" and isinstance(y[1], tuple) and y[1][0] == "variant":
+                                vs.add(y[1][2])
+                    if len(vs) == 1:
+                        res = vs if t["callee"]["name"] == "eq" else allv - vs
+                        return (allv - res) if neg else res
+            return None
+        for bdef, (tb, params) in tracker_bodies.items():
+            # (a) the tracker receives the status itself and tests it inside
+            st_params = [i for i in range(1, tb.arg_count + 1) if tb.locals[i]["ty"] == da["def"]]
+            for sp in st_params:
+                for c in tb.calls():
+                    if c.name in ("eq", "ne") and any(any(y[0] == "arg" and y[1] == sp for y in Prov(tb).operand(a2)) for a2 in c.args):
+                        n46 += 1
+                        vs = set()
+                        for a2 in c.args:
+                            for y in Prov(tb).operand(a2):
+                                if y[0] == "const" and isinstance(y[1], tuple) and y[1][0] == "variant":
+                                    vs.add(y[1][2])
+                        res = vs if c.name == "eq" else allv - vs
+                        ctx.check(bool(vs) and res <= ring_empty, "R04.6", fnkey(tb) + "#wakes-on-ring-empty-only", loc(tb, c.bb),
+                                  "the tracker treats the outcomes %s as `queue drained`, but only %s means the ring was empty: after a drain that stopped early "
+                                  "the waiting flush requests are completed although entries appended before them are still queued" % (sorted(res), sorted(ring_empty)),
+                                  "drained <=> %s" % sorted(res))
+            # (b) the caller condenses the status into a bool
+            for cs in F.callers_of(tb.path, crates=[BG]):
+                for ai, a in enumerate(cs.args):
+                    l = op_local(a)
+                    if l is not None and cs.body.local_ty(l) == "bool":
+                        res = drained_set(cs.body, a)
+                        if res is None:
+                            continue
+                        n46 += 1
+                        ctx.check(res <= ring_empty, "R04.6", fnkey(cs.body) + "#drained-flag-means-ring-empty", loc(cs.body, cs.bb),
+                                  "the `queue drained` flag handed to the waker tracker is true for the outcomes %s, but only %s means the ring was empty: after a "
+                                  "drain that stopped early (deadline, stream error) waiting flush requests would be completed with entries still queued"
+                                  % (sorted(res), sorted(ring_empty)), "flag true <=> %s" % sorted(res))
+    ctx.floor("R04.6", "places where the drain status is read as `drained`", n46, 1)
     # ------------------------------------------------------------------ R04.4 the entries-before-wake counter protocol inside the tracker
     n44 = 0
     wvf = {fn for _, fn in wv}
